@@ -429,3 +429,65 @@ func VerifC03_LargeBody() {
 	mb, merr := msg.Codec().MarshalBinary()
 	vsymAssert(merr == nil && len(mb) == len(got) && mb[1] == got[1], "marshal-large")
 }
+
+// VerifC03_Builder: the derive/build route with every header-shaping setter taking an ARBITRARY
+// value (stream over all 256 values, function, W-bit, session id, system bytes, each setter applied
+// or not): Build rejects exactly the combinations NewDataMessage rejects for the resulting fields
+// (stream above 127, W-bit with an even function) and otherwise yields the frame of those fields,
+// the untouched ones inherited from the base message.
+func VerifC03_Builder() {
+	vsymExpect("built")
+	vsymExpect("refused")
+	bs, bf := vsymU8()&0x7F, vsymU8()
+	bw := vsymBool()
+	vsymAssume(!bw || bf%2 == 1)
+	bsid, bsys := vsymU16(), sym4()
+	x := vsymU8()
+	base, err := NewDataMessage(bs, bf, bw, bsid, bsys, secs2.U1(x))
+	vsymAssert(err == nil, "base-ok")
+	if err != nil {
+		return
+	}
+	stream, function, w, sid, sys := bs, bf, bw, bsid, bsys
+	b := base.Derive()
+	if vsymBool() {
+		stream = vsymU8()
+		b = b.WithStream(stream)
+	}
+	if vsymBool() {
+		function = vsymU8()
+		b = b.WithFunction(function)
+	}
+	if vsymBool() {
+		w = vsymBool()
+		b = b.WithWaitBit(w)
+	}
+	if vsymBool() {
+		sid = vsymU16()
+		b = b.WithSessionID(sid)
+	}
+	if vsymBool() {
+		sys = sym4()
+		b = b.WithSystemBytes(sys)
+	}
+	m, berr := b.Build()
+	invalid := stream > 127 || (w && function%2 == 0)
+	vsymAssert((berr != nil) == invalid, "builder-rejects-exactly-the-invalid-combinations")
+	if berr != nil {
+		vsymReach("refused")
+		vsymAssert(m == nil, "error-xor-message")
+		return
+	}
+	vsymReach("built")
+	b2 := stream
+	if w {
+		b2 |= 0x80
+	}
+	assertBytes(m.ToBytes(), refFrame(sid, b2, function, 0, 0, sys, secs2.U1(x).ToBytes()), "built-frame")
+	// and the same fields through the direct constructor
+	d, derr := NewDataMessage(stream, function, w, sid, sys, secs2.U1(x))
+	vsymAssert(derr == nil && d != nil, "direct-constructor-agrees")
+	if d != nil {
+		assertBytes(d.ToBytes(), m.ToBytes(), "builder-equals-direct-constructor")
+	}
+}
